@@ -34,9 +34,10 @@ theorem open_leaves_valid_file (E : Env) (f : File) (r : Req) (h : Inv E f) :
 /-- the cache key in the current source is an injective encoding (a `repr` of a tuple), not a concatenation (finding F4, fixed) -/
 theorem key_shape_injective : Extracted.cacheKeyShape.head? = some "repr-tuple" := by decide
 
-/-- … and it covers exactly what the property lists: the grammar text, the (hashable) options, lark's version and the interpreter's major.minor -/
+/-- … and it covers exactly what the property lists: the grammar text, where it was read from (relative imports are resolved against that path — finding F33,
+    fixed), the (hashable) options, lark's version and the interpreter's major.minor -/
 theorem key_covers_grammar_options_versions :
-    Extracted.cacheKeyShape = ["repr-tuple", "grammar", "options_items", "__version__", "sys.version_info[]"] := by decide
+    Extracted.cacheKeyShape = ["repr-tuple", "grammar", "self.source_path", "options_items", "__version__", "sys.version_info[]"] := by decide
 
 /-- every option is either part of the key or explicitly exempt (`unhashable`) -/
 theorem unhashable_options_are_declared : Extracted.unhashableOptions.all (fun o => Extracted.optionDefaults.contains o) = true := by decide
